@@ -138,6 +138,29 @@ finally:
     c1.shutdown()
     c3.shutdown()
 
+def replicated_nondeterminism(prog):
+    """Does the programme, before the failing command, hold a command on the SAME key whose replicated effect is known to
+    differ between replicas (recorded findings C14-F01..F03 = C07-F01..F03)? Returns a suffix for the signature."""
+    if not prog:
+        return ""
+    B = lambda a: bytes(a).decode("latin1")
+    last = prog[-1]
+    key = B(last[1]) if len(last) > 1 else None
+    for c in prog[:-1]:
+        name = B(c[0]).upper()
+        args = [B(a) for a in c[1:]]
+        if key is None or not args or key not in args:
+            continue
+        if name == "SPOP":
+            return ":after-spop"
+        if name == "XADD" and "*" in args:
+            return ":after-xadd-auto"
+        up = [a.upper() for a in args]
+        if name in ("EXPIRE", "SETEX") or (name == "SET" and ("EX" in up or "PX" in up)):
+            return ":after-relative-expiry"
+    return ""
+
+
 traces = []
 for mode, fam, extra, _ in jobs:
     path = os.path.join(d, "%s-%s.ndjson" % (mode, fam))
@@ -160,6 +183,8 @@ with concurrent.futures.ThreadPoolExecutor(max_workers=8) as ex:
             if base.get((fam, sig["branch"], sig["kind"])):
                 continue
             sig["detail"] = mode
+            if mode == "cluster3":
+                sig["detail"] = mode + replicated_nondeterminism(ks.replay_of(m, path)["programme_bytes"])
             v.report(sig, ks.replay_of(m, path), what="%s, family %s:\n%s" % (mode, fam, ks.explain(m, path)))
         if len(cov["samples"]) < 2 and mode != "standalone":
             tr = ks.load_trace(path)
